@@ -119,15 +119,9 @@ def run(repo: Repo, tier: str) -> Report:
 
     # ---- accessor
     m_ = repo.method("hdc.algo.accessors", "WhittakerSmoother", "whits")
-    lam = [s for s in ast.walk(m_) if isinstance(s, ast.Assign) and ast.unparse(s.targets[0]) == "lmda"]
-    okl = False
-    if len(lam) == 1 and isinstance(lam[0].value, ast.IfExp):
-        e = lam[0].value
-        t = norm_stmt(e.test)
-        a, b_ = Normaliser().norm(e.body).key(), Normaliser().norm(e.orelse).key()
-        okl = (t == "sg is not None" and a == "pow[10;sg]" and b_ == "s") or (t == "sg is None" and a == "s" and b_ == "pow[10;sg]")
-    rep.ob("R-FORMULA", AFILE, "WhittakerSmoother.whits", "lambda = 10**sg when an sgrid is given, else s", okl,
-           f"{norm_stmt(lam[0]) if lam else None}", lam[0] if lam else "lmda = ...")
+    from ..rules import whits_lambda, ws2d_straight
+    whits_lambda(rep, repo)
+    ws2d_straight(rep, repo)
     sites = {s.kernel: s for s in load_sites(repo, kernels) if s.where() == "WhittakerSmoother.whits"}
     if set(sites) != {"ws2dgu", "ws2dpgu"}:
         raise AnalysisError(f"missing anchor: whits sites (found {sorted(sites)})")
@@ -156,5 +150,7 @@ def run(repo: Repo, tier: str) -> Report:
     rep.ob("R-VALIDATE", AFILE, "WhittakerSmoother.whits", "neither s nor sgrid raises ValueError", len(chk) == 1, "", "Need S or sgrid")
     from ..rules import r_truthy
     r_truthy(rep, repo, "WhittakerSmoother", "whits", ["nodata"], "0 is a legitimate nodata value (it is the one the test-suite uses); a truth test silently replaces or drops it")
+    from ..rules import r_stateless
+    r_stateless(rep, repo, [('WhittakerSmoother', 'whits')])
     rep.floor("C03 obligations", len(rep.obls), 25)
     return rep
